@@ -27,6 +27,8 @@ def vote_sites(prog, kind):
 
 
 def check(run, prefix="O5"):
+    from . import detectors as _DL
+    _DL.ob_loop_exits(run, prefix + ".12", ['consensus::votor'], 'the voting rules are applied to every pending slot / block of a window: a loop that stops early leaves slots unvoted')
     # "fallback votes only after the safe-to-notar / safe-to-skip condition held at that node": the Votor acts on the pool's events,
     # so the predicates behind those events are part of this property's necessary conditions as well
     if prefix == "O5":
@@ -34,6 +36,8 @@ def check(run, prefix="O5"):
         C06.ob_s2n_table(run, prefix + ".11a")
         C06.ob_safe_to_skip(run, prefix + ".11b")
         C06.ob_bookkeeping(run, prefix + ".11c")
+        C06.ob_parent_certified(run, prefix + ".11d")
+        C06.ob_registry(run, prefix + ".11e")
     D.ob_state_mutations(run, "O5.10", ['consensus::votor::Votor', 'consensus::votor::SlotState'], "the per-slot voting flags are what makes the node's votes non-slashable: any other write can re-enable a vote")
     prog = run.program("lib")
     P = prefix
